@@ -18,7 +18,7 @@ func (s *Splitter) Next() (ret string) {
 	}
 
 	idx := strings.Index(s.S[s.next:], s.Delim)
-	if idx < 0 {
+	if idx < 0 || s.Delim == "" { // an empty delimiter never splits
 		ret = s.S[s.next:]
 		s.next = -1
 		return
@@ -26,7 +26,7 @@ func (s *Splitter) Next() (ret string) {
 	idx += s.next
 
 	ret = s.S[s.next:idx]
-	s.next = idx + 1
+	s.next = idx + len(s.Delim)
 	return
 }
 
